@@ -198,6 +198,9 @@ func init() {
 	register(&Rule{ID: "C09.R1", Prop: "C09", Floor: 3,
 		Doc: "release iff acquired: in every caller of the admission method the (deferred) release is reached only on paths where admission returned nil",
 		Run: runC09R1})
+	register(&Rule{ID: "C10.R5", Prop: "C10", Floor: 3,
+		Doc: "the admission count survives a panic: in every caller of the context's admission method the release is deferred (so a Go panic below, recovered higher up as SystemError, still releases it) and is reached only where admission succeeded — a leaked count makes the next Close wait forever, which the Go runtime reports as a fatal deadlock",
+		Run: runC09R1})
 	register(&Rule{ID: "C09.R2", Prop: "C09", Floor: 4,
 		Doc: "lifecycle fields (closed flag, busy counter) are only accessed under the context's mutex (must-hold lockset over every method and closure of package stdlib), or have an atomic/self-synchronising type",
 		Run: runC09R2})
